@@ -1162,13 +1162,17 @@ func straceLayer(r *lib.Run, t *testing.T) {
 			}
 		}
 		specs = append(specs,
+			[]apiFault{{Kind: "close-torn", When: 1 + rng.IntN(2)}},
+			[]apiFault{{Kind: "close-torn", When: 1, Step: 1 + rng.IntN(2)}},
 			[]apiFault{{Kind: "close", When: 1 + rng.IntN(3)}},
 			[]apiFault{{Kind: "close", When: 1 + rng.IntN(2), Step: 1 + rng.IntN(3)}},
 			[]apiFault{{Kind: pick(rng, "write", "sync", "sync-lost"), When: 2 + rng.IntN(6)}, {Kind: "close", When: 1 + rng.IntN(3)}},
 			[]apiFault{{Kind: "write", When: 2 + rng.IntN(5)}, {Kind: "sync", When: 8 + rng.IntN(5)}, {Kind: "sync-lost", When: 14 + rng.IntN(5)}})
 		if r.Quick() && scripts[i].Profile != "plain" {
-			rng.Shuffle(len(specs), func(a, b int) { specs[a], specs[b] = specs[b], specs[a] })
-			specs = specs[:6]
+			keep := [][]apiFault{specs[len(specs)-6], specs[len(specs)-5]} // the two torn-close specs always run
+			rest := append(append([][]apiFault{}, specs[:len(specs)-6]...), specs[len(specs)-4:]...)
+			rng.Shuffle(len(rest), func(a, b int) { rest[a], rest[b] = rest[b], rest[a] })
+			specs = append(keep, rest[:5]...)
 		}
 		for _, sp := range specs {
 			ajobs = append(ajobs, apiJob{i, sp})
